@@ -110,6 +110,8 @@ def _c01_specs(tier):
                                            '--segs', '2', '--routes', ALLROUTES]))
         sp.append(('c01-%s-hand' % conf, ['--conf', conf, '--gset', 'hand', '--syms', 'SIL,AH,G,OW,T,_', '--segs', '3',
                                          '--routes', 'api,fsgtext,jsgf']))
+    sp.append(('c01-default-altword-enum22', ['--conf', 'default', '--gset', 'enum:2:2', '--words', 'a,go(2)', '--syms', 'SIL,AH,G,OW,_', '--segs', '2',
+                                              '--routes', 'api,fsgtext,aligntext'], 8))
     if tier == 'thorough':
         for conf in ('default', 'tight', 'open'):
             sp.append(('c01-%s-enum33' % conf, ['--conf', conf, '--gset', 'enum:3:3', '--words', 'a,go,no', '--syms', SYM3,
@@ -131,6 +133,9 @@ def _c03_specs(tier):
                                               '--syms', 'SIL,AH,G,OW,_', '--segs', '3', '--lens', '2,3', '--routes', 'api']))
         sp.append(('c03-%s-hand' % conf, ['--conf', conf, '--gset', 'hand', '--syms', 'SIL,AH,G,OW,T,_', '--segs', '3',
                                          '--routes', 'api,jsgf']))
+    # a grammar that NAMES an alternate pronunciation itself (align text, FSG file and API can; JSGF cannot spell it)
+    sp.append(('c03-default-altword-enum22', ['--conf', 'default', '--gset', 'enum:2:2', '--words', 'a,go(2)', '--syms', 'SIL,AH,G,OW,_', '--segs', '2',
+                                              '--routes', 'api,fsgtext,aligntext'], 8))
     sp.append(('c03-tight-enum23', ['--conf', 'tight', '--gset', 'enum:2:3', '--words', 'a,go,no', '--syms', SYM3, '--segs', '2',
                                     '--routes', 'api,jsgf']))
     if tier == 'thorough':
@@ -244,10 +249,18 @@ def _c09_specs(tier):
     if tier == 'quick':
         return [('c09-all-len2', ['--set', 'all', '--len', '2']), ('c09-core-len3', ['--set', 'core', '--len', '3']),
                 ('c09-proto-len5', ['--set', 'proto', '--len', '5']), ('c09-two-core-len2', ['--set', 'core', '--len', '2', '--two', '1'])] + [
-                    ('c09-synth-%s-core-len2' % sc, ['--set', 'core', '--len', '2', '--synth', sc], 2) for sc in ('semi', 'ms', 'mixw')]
+                    ('c09-synth-%s-core-len2' % sc, ['--set', 'core', '--len', '2', '--synth', sc], 2) for sc in ('semi', 'ms', 'mixw')] + [
+                    # a decoder that starts life without a grammar, and non-default search options
+                    ('c09-boot-nogram-len4', ['--set', 'boot', '--len', '4', '--nogram', '1'], 8),
+                    ('c09-nofiller-core-len2', ['--set', 'core', '--len', '2', '--cfg', 'fsgusefiller=no'], 2),
+                    ('c09-noalt-nobestpath-core-len2', ['--set', 'core', '--len', '2', '--cfg', 'fsgusealtpron=no,bestpath=no'], 2)]
     return [('c09-all-len3', ['--set', 'all', '--len', '3']), ('c09-core-len4', ['--set', 'core', '--len', '4']),
             ('c09-proto-len6', ['--set', 'proto', '--len', '6']), ('c09-two-core-len3', ['--set', 'core', '--len', '3', '--two', '1'])] + [
-                ('c09-synth-%s-all-len2' % sc, ['--set', 'all', '--len', '2', '--synth', sc], 4) for sc in ('semi', 'ms', 'mixw')]
+                ('c09-synth-%s-all-len2' % sc, ['--set', 'all', '--len', '2', '--synth', sc], 4) for sc in ('semi', 'ms', 'mixw')] + [
+                ('c09-boot-nogram-len5', ['--set', 'boot', '--len', '5', '--nogram', '1'], 16),
+                ('c09-nofiller-all-len2', ['--set', 'all', '--len', '2', '--cfg', 'fsgusefiller=no'], 8),
+                ('c09-nofiller-core-len3', ['--set', 'core', '--len', '3', '--cfg', 'fsgusefiller=no'], 8),
+                ('c09-noalt-nobestpath-all-len2', ['--set', 'all', '--len', '2', '--cfg', 'fsgusealtpron=no,bestpath=no'], 8)]
 
 
 def _c08_specs(tier):
@@ -257,7 +270,9 @@ def _c08_specs(tier):
                     ('c08-synth-%s-proto-len3' % sc, ['--set', 'proto', '--len', '3', '--synth', sc], 1) for sc in ('semi', 'ms')] + [
                     # a cap on active HMMs that the probe grammar exceeds: the search narrows its beams dynamically
                     ('c08-maxhmmpf5-proto-len3', ['--set', 'proto', '--len', '3', '--maxhmmpf', '5'], 2),
-                    ('c08-maxhmmpf3-core-len2', ['--set', 'core', '--len', '2', '--maxhmmpf', '3'], 2)]
+                    ('c08-maxhmmpf3-core-len2', ['--set', 'core', '--len', '2', '--maxhmmpf', '3'], 2),
+                    ('c08-nofiller-proto-len3', ['--set', 'proto', '--len', '3', '--cfg', 'fsgusefiller=no'], 1),
+                    ('c08-boot-nogram-len3', ['--set', 'boot', '--len', '3', '--nogram', '1'], 2)]
     return [('c08-all-len3', ['--set', 'all', '--len', '3']), ('c08-core-len3', ['--set', 'core', '--len', '3']),
             ('c08-two-core-len3', ['--set', 'core', '--len', '3', '--two', '1'])] + [
                 ('c08-synth-%s-core-len2' % sc, ['--set', 'core', '--len', '2', '--synth', sc], 2) for sc in ('semi', 'ms')] + [
